@@ -17,7 +17,7 @@ NA = {
  "C17": "Keyset derivation is a deterministic function of (keyset, salt); it reads no RNG, clock or I/O.",
 }
 
-PENDING = {k: "claimed in DESIGN.md; its simulation world is still being built in this session (entry is removed when the check is registered)" for k in ["C09"]}
+PENDING = {k: "claimed in DESIGN.md; its simulation world is still being built in this session (entry is removed when the check is registered)" for k in []}
 
 CHECKS = {
  "C07": dict(engine="stream", design="§3 C07",
@@ -48,6 +48,10 @@ CHECKS = {
    technique="deterministic simulation: RNG seam with provenance logging, single-byte perturbation replays, legal short reads and scripted key-ID collisions over drawn call histories; rapid-minimised replay",
    text="With crypto/rand.Reader behind the simulator's seam, C20's distributional statement becomes exact dataflow statements checked over drawn, interleaved call histories on 1..4 keys of every randomized key type: each random field tink copies into an output (IV/nonce/salt/nonce prefix, generated key material, key IDs) equals a contiguous range the RNG issued during that very call, consumption windows are disjoint and advancing (nothing cached or reused), each output that is a function of the draw (encapsulations, ECDSA/PSS/ML-DSA/SLH-DSA signatures, generated asymmetric keys) changes when any consumed byte within the scheme's randomness length is flipped and consumes at least that length, ephemeral public values are recomputed independently with crypto/ecdh, repeated signing/encryption/keygen never repeats, and ML-KEM encapsulations are checked through SetGlobalRandom. Faults: legal short reads of the RNG, MaybeReadByte noise, scripted ID collisions with re-draw. Sampling, not proof.",
    note="Identity with the RNG's bytes gives freshness/uniformity for any sound RNG; the OS RNG itself is out of scope."),
+ "C09": dict(engine="jwtclock", design="§3 C09",
+   technique="deterministic simulation: simulated clock (testing/synctest bubble drives the production time.Now path), issuer clock error, network delay/duplication and in-flight tampering of known effect, reference decision procedure as oracle; rapid-minimised replay",
+   text="Seeded exploration of JWT verification decisions with the simulator owning the clock: inside a synctest bubble an issuer writes exp/nbf/iat relative to simulated time, the network delivers tokens late/twice/tampered, and the real VerifyAndDecode / VerifyMACAndDecode run at instants placed on and around every boundary (exp+skew, nbf-skew, iat-skew at -1s, -1ns, 0, +1ns, +1s) for skews {0, 1ns, 1s, 10min,...}; each decision is taken through time.Now (bubble) and through FixedNow and compared with an independent decision procedure (refimpl/jwtref) written from the property statement: signature valid under an enabled key, alg equals the key's, no crit, kid rule, typ/iss/aud matrix, time rules; on accept the returned claims equal the signed payload. 61 manipulation kinds (alg none/HS-vs-RS, kid, crit, typ, payload/header substitution, signature damage, base64 variants, foreign/disabled keys); verifier keysets directly or through JWK export/import; JWK export refuses private keys. Sampling, not proof.",
+   note="Tokens are built structurally so the model is certain of their meaning; the bubble clock's start and advance are asserted every run."),
 }
 
 def main():
@@ -85,6 +89,7 @@ def main():
             {"name": "atrest", "path": "/verif/sim/worlds/atrest", "serves_properties": ["C14"], "kind_free_text": "real writers -> simulated device/medium with field-aware storage faults -> short-reading source -> real readers"},
             {"name": "memory", "path": "/verif/sim/worlds/memory", "serves_properties": ["C19"], "kind_free_text": "arena-backed buffers, address-overlap invariants, twin-world differential"},
             {"name": "entropy", "path": "/verif/sim/worlds/entropy", "serves_properties": ["C20"], "kind_free_text": "RNG provenance and byte-sensitivity over call histories"},
+            {"name": "jwtclock", "path": "/verif/sim/worlds/jwtclock", "serves_properties": ["C09"], "kind_free_text": "issuer/network/verifier inside a synctest bubble, reference model refimpl/jwtref"},
             {"name": "manager", "path": "/verif/sim/worlds/manager", "serves_properties": ["C11"], "kind_free_text": "operation histories of the real keyset.Manager vs reference model, scripted RNG"},
         ],
         "checks": checks,
